@@ -5,7 +5,8 @@ C05 — A sender never exceeds the limits its peer advertised.   (property theor
 `Reach c h s`: `s` is reachable from `StreamsState::new(c)` by the history `h` (operations with their
 results, newest first): any interleaving of application calls, peer frames, acknowledgements,
 losses, transmissions, window changes; `set_params` wherever it is admissible (`ParamsOk`: always as
-the first operation). Peer limits are ghost maxima of the values that actually arrived
+the first operation); and the 0-RTT rejection (`Reach.rejected`) after early operations, followed by
+`set_params` with arbitrary — also smaller — newly negotiated limits. Peer limits are ghost maxima of the values that actually arrived
 (`peerMaxData`, `peerStreamLimit`, `peerMaxStreams`); `totalAccepted h` is the number of bytes `write`
 accepted = the sum over all streams of the highest offset.
 -/
@@ -87,44 +88,39 @@ theorem reset_restores_window {s s' : State} {id code : Nat} (h : s.reset id cod
       s'.unackedData + u = s.unackedData :=
   Streams.reset_restores_window h
 
-/-! ### 0-RTT rejection: limits must restart from the newly negotiated values -/
+/-! ### 0-RTT rejection: limits restart from the newly negotiated values
 
-/-- after `zero_rtt_rejected` + `set_params p` the connection-level credit is the new one and no
-    unacknowledged data is accounted (as on a fresh connection) -/
-def rejected_limits_are_new_statement : Prop :=
-  ∀ (s s1 : State) (h : Hist) (c : Config) (p : Params),
-    Reach c h s → s.zeroRttRejected = some s1 →
-    (s1.setParams p).maxData = p.initialMaxData ∧ (s1.setParams p).unackedData = 0
+All theorems above hold for histories that contain a rejection (`Reach.rejected`: early operations,
+then `zero_rtt_rejected` + `set_params p` with ANY `p`, in particular smaller limits than the
+remembered ones): the ghost maxima restart at the rejection, so "conveyed" then means conveyed by
+the new parameters or by frames received afterwards. -/
 
-/-- what the code does instead: `max_data` keeps the larger remembered value and `unacked_data`
-    keeps counting the bytes written in the rejected 0-RTT phase -/
-theorem rejected_limits_are_new_partial {s s1 : State} (p : Params)
-    (h : s.zeroRttRejected = some s1) :
-    (s1.setParams p).maxData = Nat.max s.maxData p.initialMaxData ∧
-    (s1.setParams p).unackedData = s.unackedData ∧
+/-- after `zero_rtt_rejected` + `set_params p` the connection-level credit is exactly the newly
+    negotiated one, nothing counts as sent or unacknowledged, and stream numbering restarts -/
+theorem rejected_limits_are_new {s s1 : State} (p : Params) (h : s.zeroRttRejected = some s1) :
+    (s1.setParams p).maxData = p.initialMaxData ∧ (s1.setParams p).unackedData = 0 ∧
     (s1.setParams p).dataSent = 0 ∧ (s1.setParams p).next = ⟨0, 0⟩ ∧
-    (s1.setParams p).max = ⟨p.initialMaxStreamsBidi, p.initialMaxStreamsUni⟩ :=
-  rejected_then_params p h
+    (s1.setParams p).max = ⟨p.initialMaxStreamsBidi, p.initialMaxStreamsUni⟩ := by
+  obtain ⟨z1, z2, z3, z4, _⟩ := zeroRttRejected_scalars h
+  simp only [State.setParams, State.receivedMaxData, z1, z2, z3, z4, natMax_eq, Nat.zero_max, and_self]
 
-/-- F10: the remembered limit survives the rejection, and a write beyond the new limit is accepted -/
-theorem rejected_max_data_counterexample :
-    (runOps State.initial [] F10_ops).map (fun r => (r.1.maxData, r.1.dataSent, peerMaxDataSince r.2)) =
-      some (1000000, 10000, 2000) := by decide
-
-/-- F11: `unacked_data` is not reset -/
-theorem rejected_unacked_counterexample :
-    (runOps State.initial [] F11_ops).map (fun r => (r.1.unackedData, r.1.dataSent)) = some (13, 0) := by
-  decide
-
-theorem rejected_limits_are_new_counterexample : ¬ rejected_limits_are_new_statement := by
-  intro hst
-  -- the state after `new; params(remembered 1 000 000)`
-  have r := reach_start ⟨.client, 0, 0, 1000000, 1000000, 1000000⟩
-    ⟨100000, 100000, 100000, 10, 10, 1000000⟩ (by decide)
-  have := (hst _ ((State.zeroRttRejected _).get (by decide)) _ _ ⟨100000, 100000, 100000, 10, 10, 2000⟩ r
-    (Option.some_get _).symm).1
-  revert this
-  decide
+/-- after a rejection only the new limit counts: as long as no MAX_DATA frame arrives, everything
+    written since stays within the newly negotiated `initial_max_data`, whatever was remembered -/
+theorem rejected_then_bounded {c : Config} {h h' : Hist} {s' : State} {p : Params}
+    (r' : Reach c (h' ++ (.params p, .ok) :: (.rejected, .ok) :: h) s')
+    (hno : ∀ e ∈ h', (match e.1 with | .maxData _ | .params _ | .rejected => false | _ => true) = true) :
+    s'.dataSent ≤ p.initialMaxData := by
+  have i := (snd_conn_limit r')
+  have hp : peerMaxData (h' ++ (.params p, .ok) :: (.rejected, .ok) :: h) = p.initialMaxData := by
+    clear i r'
+    induction h' with
+    | nil => simp [peerMaxData, natMax_eq]
+    | cons e t ih =>
+      obtain ⟨o, out⟩ := e
+      have ho := hno (o, out) (List.mem_cons_self ..)
+      have iht := ih (fun e he' => hno e (List.mem_cons_of_mem _ he'))
+      cases o <;> simp at ho <;> simpa [peerMaxData] using iht
+  omega
 
 -- non-vacuity: a reachable state with data written, a finished stream and credit consumed
 example : ∃ s h, Reach ⟨.client, 2, 2, 1000, 1000, 1000⟩ h s ∧ s.dataSent = 250 ∧ peerMaxData h = 400 := by
@@ -132,5 +128,16 @@ example : ∃ s h, Reach ⟨.client, 2, 2, 1000, 1000, 1000⟩ h s ∧ s.dataSen
   have r2 := reach_run' r [.open_ .bi, .write 0 150, .maxData 400, .write 0 150, .finish 0, .transmit 1200 true]
     (by decide) (by decide)
   exact ⟨_, _, r2, by decide, by decide⟩
+
+-- non-vacuity: the former F10/F11 history — remembered max_data 1 000 000, 13 bytes written in 0-RTT,
+-- rejected, newly negotiated max_data 2 000 — is a reachable history, and a 10 000 byte write is cut to 2 000
+example : ∃ s h, Reach ⟨.client, 0, 0, 1000000, 1000000, 1000000⟩ h s ∧ s.maxData = 2000 ∧
+    s.dataSent = 2000 ∧ s.unackedData = 2000 ∧ peerMaxData h = 2000 := by
+  have r := reach_start ⟨.client, 0, 0, 1000000, 1000000, 1000000⟩ ⟨100000, 100000, 100000, 10, 10, 1000000⟩ (by decide)
+  have r1 := reach_run' r [.open_ .bi, .write 0 13] (by decide) (by decide)
+  have r2 := Reach.rejected (p := ⟨100000, 100000, 100000, 10, 10, 2000⟩) r1 (by decide)
+    (Option.some_get (by decide)).symm
+  have r3 := reach_run' r2 [.open_ .bi, .write 0 10000] (by decide) (by decide)
+  exact ⟨_, _, r3, by decide, by decide, by decide, by decide⟩
 
 end QM.Props.C05
